@@ -3,7 +3,7 @@ import contextlib
 import copy
 import io
 
-from .. import coqbuild, irtools as T
+from .. import coqbuild, edtie, irtools as T
 from ..common import GLOBAL_TRUSTED_BASE
 from ..model import call_many
 from ..pool import guarded, run_cases
@@ -226,8 +226,8 @@ def rest_impl(c):
 
 
 def worker(batch):
-    out = {"n": 0, "hops": 0, "clean": 0, "items": [], "corr": [], "sdd": 0, "rest": 0}
-    sdds = []
+    out = {"n": 0, "hops": 0, "clean": 0, "items": [], "corr": [], "sdd": 0, "rest": 0, "ed": 0, "ed_found": 0}
+    sdds, eds = [], []
     rests = [p for k, p in batch if k == "rest"]
     if rests:
         impl = [guarded(rest_impl, c, 20) for c in rests]
@@ -288,8 +288,15 @@ def worker(batch):
                     out["items"].append((cls, det, {"sweep": list(payload)}))
             else:
                 out["items"].append(("C01/harness/" + st, {"detail": v}, None))
+        elif kind == "ed":
+            eds.append(payload)
         else:
             sdds.append(payload)
+    if eds:
+        n, found, bad = edtie.compare(eds)
+        out["ed"] += n
+        out["ed_found"] += found
+        out["corr"] += bad
     if sdds:
         impl = [guarded(sdd_impl, c, 10) for c in sdds]
         ok = [(c, v) for c, (st, v) in zip(sdds, impl) if st == "ok"]
@@ -324,14 +331,26 @@ def collect(ctx, n_ir, n_sdd):
         work.append(("ir", ({"name": "thing", "doc": "Thing description.", "returns": None,
                              "params": OrderedDict((("alpha", {"typ": "int", "doc": "the value"}),
                                                     ("beta", {"typ": typ, "doc": "first item to use", "default": dflt})))}, "rest")))
+    # corpus: descriptions with characters whose case-folding changes length (the announcer search folds case), and code-quoted
+    # defaults that continue with ".attr" after a closed bracket group (the default scan stops at a sentence-ending ".")
+    for style in STYLES:
+        work.append(("ir", ({"name": "thing", "doc": "Thing description.", "returns": None,
+                             "params": OrderedDict((("size", {"typ": "int", "doc": "Größe des Puffers", "default": -16}),
+                                                    ("ratio", {"typ": "float", "doc": "Maß der Auslastung", "default": 12.5}),
+                                                    ("label", {"typ": "str", "doc": "İstanbul ﬁle", "default": "hello"})))}, style)))
+        work.append(("ir", ({"name": "thing", "doc": "Thing description.", "returns": None,
+                             "params": OrderedDict((("count", {"typ": "int", "doc": "the value"}),
+                                                    ("sep", {"typ": "Optional[str]", "doc": "the separator", "default": '```("-" * 3).join("ab")```'}),
+                                                    ("names", {"typ": "List[str]", "doc": "the names", "default": '```["b", "a"].copy()```'})))}, style)))
     work += [("sdd", sdd_case(rng)) for _ in range(n_sdd)]
+    work += [("ed", (edtie.gen(rng), rng.random() < 0.5)) for _ in range(2 * n_sdd)]
     work += [("rest", rest_case(rng)) for _ in range(n_sdd)]
     # corpus: a description whose prose makes the parser invent a type (the candidate `name` is eval()ed inside
     # __set_name_and_type_handle_doc_in_param, where `name` is a local variable)
     work.append(("rest", {"doc": "Fetch it", "params": [["_private", ["name of bytes", None]]], "ret": None, "scan": "", "adhoc": True}))
     work += [("sweep", (rng.choice(["workers", "n", "batch_size"]), 5, "int")), ("sweep", ("label", "x", "str")),
              ("sweep", ("clip", rng.choice([1e+20, 2.5e+16, 0.5]), "float"))]
-    agg = {"n": 0, "hops": 0, "clean": 0, "sdd": 0, "rest": 0}
+    agg = {"n": 0, "hops": 0, "clean": 0, "sdd": 0, "rest": 0, "ed": 0, "ed_found": 0}
     dist = {"rest_params_per_description": {}, "rest_entry_kinds": {}, "rest_with_return": 0, "ir_styles": {}, "ir_params": {}}
     for kind, payload in work:
         if kind == "rest":
@@ -363,9 +382,12 @@ def run(ctx):
     agg, items, corr, work = collect(ctx, 45 if ctx.quick else 1800, 400 if ctx.quick else 18000)
     for cls, det, ir in items:
         ctx.item(cls, {"stage": "render as a docstring and parse it back", "clause": cls, "input": T.jsonable(ir) if ir else None, "detail": det})
+    cf_bad = edtie.casefold_facts()
+    if cf_bad:
+        corr.insert(0, {"stage": "str.casefold facts assumed by Model/ExtractDefault.v:fold_char", "code_points": cf_bad[:10]})
     if not ctx.violations:
         if corr:
-            ctx.violation({"stage": "correspondence: Model/DefaultDoc.v, Model/RestDoc.v vs the implementation (%s)" % corr[0]["stage"],
+            ctx.violation({"stage": "correspondence: Model/DefaultDoc.v, Model/ExtractDefault.v, Model/RestDoc.v vs the implementation (%s)" % corr[0]["stage"],
                            "detail": corr[:3], "n_disagreements": len(corr)}, no_input=True)
         elif not status["ok"]:
             ctx.violation({"stage": "proof", "theorem": status.get("failing_theorem"),
@@ -388,7 +410,8 @@ def run(ctx):
         "interfaces": agg["n"], "round_trips": agg["hops"], "round_trips_without_any_difference": agg["clean"],
         "input_distribution": agg["distribution"],
         "set_default_doc_cases": agg["sdd"], "rest_model_cases": agg["rest"], "model_disagreements": len(corr),
-        "traces_validated_against_impl": agg["sdd"] + 4 * agg["rest"],
+        "extract_default_cases": agg["ed"], "extract_default_cases_with_a_default_found": agg["ed_found"],
+        "traces_validated_against_impl": agg["sdd"] + 4 * agg["rest"] + agg["ed"],
         "samples": [T.jsonable(work[0][1][0])],
         "build": {k: status[k] for k in ("build_s", "forbidden")},
     }
